@@ -15,12 +15,13 @@ def run(prop, tier, only=None):
         r = parallel(c13._cb_chunk, list(gen.plain_specs(n, min_n=1)), prop, prop=prop)
         r.violations = [v for v in r.violations if "wf(T)" in v.clause]
         total.merge(r)
+        total.merge(c13.badkind(prop, tier))
         total.bounds["mutating operations cut short by a raising callback"] = f"all plain forests with 1..{n} nodes x every operation taking a callback x every k; only the clauses 'wf(T) after ... raised' count here (the rest is C13's)"
     return total
 
 
 def replay(witness, prop):
-    if witness.get("kind") in ("cb", "hook", "factory"):
+    if witness.get("kind") in ("cb", "hook", "factory", "badkind"):
         from . import c13
 
         return c13.replay(witness, prop)
